@@ -71,25 +71,60 @@ def r_kill_path(e, R):
         g = e.cfg(m)
         stores = [n for n in g.nodes if n.kind == "stmt" and isinstance(n.ast, ast.Assign) and isinstance(n.ast.targets[0], ast.Attribute)
                   and n.ast.targets[0].attr == "kill_workers"]
+        # the flag after the call, as a function of the argument v and the flag before o, by evaluating the stores and the tests that
+        # control them over v in {None, False, True} x o in {False, True}:
+        #   v is None  -> unchanged (the manager re-flags without argument: that must not clear the flag)
+        #   v is True  -> True      (in whatever state the call finds the executor)
+        #   v is False -> unchanged (a plain shutdown() after shutdown(kill_workers=True) -- the exit of a `with` block, a generic clean-up,
+        #                            another thread -- must not turn the forced shutdown back into a graceful one)
+        kparams = [p_ for p_ in m.params[1:]]
+
+        def classify(x, m=m):
+            if isinstance(x, ast.Name) and x.id in kparams:
+                return "V"
+            if isinstance(x, ast.Attribute) and x.attr == "kill_workers" and isinstance(x.value, ast.Name) and x.value.id == m.params[0]:
+                return "O"
+            return None
         for n in stores:
-            okv = isinstance(n.ast.value, ast.Name) and n.ast.value.id in m.params
-            R.check(okv, "R-KILL-PATH", f"{m.short}: stores the kill_workers argument", m.short, norm(n.ast), "kill flag not taken from the argument", e.loc(m, n.ast))
-            # the manager re-flags without argument: that must not clear the flag
-            guarded = any(t.kind == "test" and none_test(t.ast) and isinstance(none_test(t.ast)[0], ast.Name)
-                          and none_test(t.ast)[0].id == n.ast.value.id and g.on_branch(n, t, none_test(t.ast)[1]) for t in g.nodes) \
-                if okv else False
-            R.check(guarded, "R-KILL-PATH", f"{m.short}: a call without argument leaves the kill flag untouched", m.short, norm(n.ast),
+            ctl = [(t_, "T" if g.on_branch(n, t_, "T") else "F") for t_ in g.nodes if t_.kind == "test" and (g.on_branch(n, t_, "T") or g.on_branch(n, t_, "F"))]
+            others = []
+            rows = []
+            for v in (None, False, True):
+                for o in (False, True):
+                    env = {"V": v, "O": o}
+                    try:
+                        taken = True
+                        for t_, lab in ctl:
+                            try:
+                                tv = bool(guards.eval_guard(t_.ast, env, classify))
+                            except guards.Inconclusive:
+                                if t_ not in others:
+                                    others.append(t_)
+                                continue
+                            if tv != (lab == "T"):
+                                taken = False
+                        new = bool(guards.eval_guard(n.ast.value, env, classify)) if taken else o
+                    except guards.Inconclusive as ex:
+                        raise AnalysisError(f"{m.short}: the value stored in the kill flag is not a term over the argument and the flag: {ex}")
+                    rows.append((v, o, new))
+            bad_none = [r for r in rows if r[0] is None and r[2] != r[1]]
+            bad_true = [r for r in rows if r[0] is True and r[2] is not True]
+            bad_false = [r for r in rows if r[0] is False and r[2] != r[1]]
+            R.check(not bad_true, "R-KILL-PATH", f"{m.short}: stores the kill_workers argument", m.short, norm(n.ast), "kill flag not taken from the argument", e.loc(m, n.ast))
+            R.check(not bad_none, "R-KILL-PATH", f"{m.short}: a call without argument leaves the kill flag untouched", m.short, norm(n.ast),
                     "the manager's own flag_as_shutting_down() call resets kill_workers: a forced shutdown silently becomes a graceful one",
                     e.loc(m, n.ast))
+            R.check(not bad_false, "R-KILL-PATH", f"{m.short}: a pending forced shutdown is not cancelled by a later plain shutdown", m.short,
+                    f"kill flag after {m.short.split('.')[-1]}(kill_workers=False) while it was True",
+                    "the kill flag is overwritten with False by any later shutdown() with the default kill_workers=False (the exit of a `with` block, a generic "
+                    "clean-up, another thread) that lands before the manager thread has read it: shutdown(kill_workers=True) silently becomes a graceful "
+                    "shutdown, it lasts as long as the running tasks and no future fails with ShutdownExecutorError", e.loc(m, n.ast))
             # ... and nothing else decides whether the flag is taken: a forced shutdown requested after a graceful one
             # (a watchdog escalating while another thread is blocked in shutdown(wait=True)) must still arm the kill flag
-            if okv:
-                others = [t for t in g.nodes if t.kind == "test" and (g.on_branch(n, t, "T") or g.on_branch(n, t, "F"))
-                          and not (none_test(t.ast) and isinstance(none_test(t.ast)[0], ast.Name) and none_test(t.ast)[0].id == n.ast.value.id)]
-                R.check(not others, "R-KILL-PATH", f"{m.short}: whether the kill flag is taken depends on the argument only", m.short,
-                        "control dependence of " + norm(n.ast), "the kill flag is stored only when `" + "`, `".join(norm(t.ast) for t in others) +
-                        "` has a particular value: a forced shutdown requested in another state (e.g. after a graceful shutdown began) is "
-                        "silently ignored and the caller waits for the running tasks", e.loc(m, others[0].ast if others else n.ast))
+            R.check(not others, "R-KILL-PATH", f"{m.short}: whether the kill flag is taken depends on the argument only", m.short,
+                    "control dependence of " + norm(n.ast), "the kill flag is stored only when `" + "`, `".join(norm(t_.ast) for t_ in others) +
+                    "` has a particular value: a forced shutdown requested in another state (e.g. after a graceful shutdown began) is "
+                    "silently ignored and the caller waits for the running tasks", e.loc(m, others[0].ast if others else n.ast))
         sds = [n for n in g.nodes if n.kind == "stmt" and isinstance(n.ast, ast.Assign) and isinstance(n.ast.targets[0], ast.Attribute)
                and n.ast.targets[0].attr == "shutdown"]
         for n in sds:
